@@ -922,6 +922,25 @@ def rule_or_coperm(repo, col):
             col.unknown(rule, TABLE, 'Table.sort_order', 'branch', c,
                         'axis branch not recognised')
             continue
+        SLOTS = ['data', 'observation_ids', 'sample_ids',
+                 'observation_metadata', 'sample_metadata']
+        slot = {}
+        for i, nm in enumerate(SLOTS):
+            v = kwarg(c, nm)
+            if v is None and len(c.args) > i:
+                v = c.args[i]
+            slot[nm] = v
+        if any(v is None for v in slot.values()):
+            col.unknown(rule, TABLE, 'Table.sort_order', 'slots', c,
+                        'constructor slots not all bound')
+            continue
+
+        class _A(list):
+            pass
+        cargs = _A([slot[nm] for nm in SLOTS])
+        c = ast.Call(func=c.func, args=list(cargs) + list(c.args[5:]),
+                     keywords=[k for k in c.keywords if k.arg not in SLOTS])
+        ast.copy_location(c, cargs[0])
         ids_pos, md_pos = (2, 4) if ax == 'sample' else (1, 3)
         oid_pos, omd_pos = (1, 3) if ax == 'sample' else (2, 4)
 
